@@ -82,6 +82,9 @@ def oracle_c09(h, cfg_maxid):
     for e in (h.points[-1][1]['events'] if h.points else []):
         if e[0] == 8 and not (0 <= e[1] <= cfg_maxid):
             out.append(('id-beyond-max', 'handed out id %d > %d' % (e[1], cfg_maxid), len(h.points) - 1))
+    for (r, i, tok) in h.foreign_drops:
+        out.append(('timeout-dropped-foreign-request', 'the client timeout of request %r removed the handler of request %r, which is outstanding on stream %d '
+                    '(stale ResponseFuture._req_id), and orphaned its stream: the response to %r will be discarded' % (r, tok, i, tok), len(h.points) - 1))
     for (i, tok, expect) in h.misrouted:
         out.append(('misrouted', 'response for request %r on stream %d delivered to callback %r' % (expect, i, tok), len(h.points) - 1))
     return out
